@@ -86,8 +86,11 @@ func (w *world) advance() {
 		}
 	case 2, 3: // sub-second
 		w.now += uint64(g.R.Intn(999_999_999))
-	case 4: // exactly to the next second boundary
+	case 4: // exactly to the next second boundary, or a few nanoseconds below it
 		w.now = (w.now/1_000_000_000 + 1) * 1_000_000_000
+		if g.R.Intn(2) == 0 {
+			w.now -= uint64(1 + g.R.Intn(200))
+		}
 	default:
 		w.now += uint64(g.R.Intn(4_000_000_000))
 	}
@@ -171,6 +174,11 @@ func (w *world) rndPlan(n int) votePlan {
 		if g.R.Intn(4) == 0 { // a competing definition for the same id
 			p.updates = append(p.updates, updVote{id, w.rndChanDef(), w.nearF(n)})
 		}
+		if g.R.Intn(6) == 0 { // … or one that differs only in the order of its streams (order is significant)
+			base := J{"format": "2", "streams": []any{J{"sid": "1", "agg": "1"}, J{"sid": "2", "agg": "1"}, J{"sid": "3", "agg": "3"}}, "opts": ""}
+			perm := J{"format": "2", "streams": []any{J{"sid": "2", "agg": "1"}, J{"sid": "1", "agg": "1"}, J{"sid": "3", "agg": "3"}}, "opts": ""}
+			p.updates = append(p.updates, updVote{id + 20, base, w.nearF(n)}, updVote{id + 20, perm, w.nearF(n)})
+		}
 	}
 	if g.R.Intn(12) == 0 {
 		p.retire = w.nearF(n)
@@ -227,13 +235,16 @@ func (w *world) round(p votePlan, streams []int) (obs []any, honest []any) {
 			ts -= 50_000_000
 		}
 		if faulty[i] {
-			switch g.R.Intn(4) {
+			switch g.R.Intn(6) {
 			case 0:
 				ts = 0
 			case 1:
 				ts = ^uint64(0) >> uint(g.R.Intn(2))
 			case 2:
 				ts = w.now + uint64(g.R.Intn(10_000_000_000))
+			case 3:
+				// half the uint64 range away from the honest timestamps (wrap-around comparators)
+				ts = w.now + 1<<63 + uint64(g.R.Intn(200_000_000)) - 100_000_000
 			}
 		} else {
 			honest = append(honest, i)
@@ -324,7 +335,16 @@ func (w *world) rndOutcome() J {
 		seenA[[2]int{sid, agg}] = true
 		var v any
 		if g.R.Intn(2) == 0 {
-			v = svJ(&llo.TimestampedStreamValue{ObservedAtNanoseconds: w.now - uint64(g.R.Intn(1000)), StreamValue: llo.ToDecimal(decimal.New(w.price, -2))})
+			at := w.now - uint64(g.R.Intn(1000))
+			switch g.R.Intn(6) {
+			case 0:
+				at = ^uint64(0) - uint64(g.R.Intn(20))
+			case 1:
+				at = 1<<63 + uint64(g.R.Intn(2000))
+			case 2:
+				at = uint64(g.R.Intn(10))
+			}
+			v = svJ(&llo.TimestampedStreamValue{ObservedAtNanoseconds: at, StreamValue: llo.ToDecimal(decimal.New(w.price, -2))})
 		} else {
 			v = svJ(llo.ToDecimal(decimal.New(w.price, -2)))
 		}
@@ -416,6 +436,24 @@ func init() {
 				genOutcomeCases(g, g.N(m[0], m[1]), "outcome")
 			}
 			genHistoryCases(g, g.N(m[2], m[3]), g.N(10, 16), "history")
+			if p == "C01" || p == "C06" {
+				// the channel hash identifies a vote: compare MakeChannelHash with the model (SHA-256 over the
+				// documented serialisation), incl. definitions that differ only in stream order / opts / format
+				w := newWorld(g)
+				for i := 0; i < g.N(60, 600); i++ {
+					d := w.rndChanDef()
+					id := w.rndChannelID()
+					g.Emit(J{"op": "llo.hash", "id": id, "def": d}, "hash")
+					st := jArr(normalise(d).(map[string]any)["streams"])
+					if len(st) >= 2 {
+						rev := make([]any, len(st))
+						for k := range st {
+							rev[k] = st[len(st)-1-k]
+						}
+						g.Emit(J{"op": "llo.hash", "id": id, "def": J{"format": d["format"], "streams": rev, "opts": d["opts"]}}, "hash")
+					}
+				}
+			}
 		})
 	}
 }
